@@ -567,7 +567,7 @@ func execC11(t *testing.T, raw json.RawMessage) *sim.Outcome {
 				var out []byte
 				out, err = shim.Forward(req)
 				s.Yield("use-reply", "caller")
-				if err == nil && !bytes.Equal(out, append([]byte{0xEE}, req...)) {
+				if err == nil && !bytes.Equal(out, refagent.EchoReply(req)) {
 					rs.tagErr(fmt.Sprintf("task %d op %d forward: reply %q is not the answer to this caller's request %q", task, idx, out, req))
 				}
 			}
